@@ -74,7 +74,7 @@ def spec_gni(x, imf_opts, envelope_opts, extrema_opts):
             return 'error', None, k, True
 
 
-def oracle_real(x, imf_opts, envelope_opts, extrema_opts, dtype=None):
+def oracle_real(x, imf_opts, envelope_opts, extrema_opts, dtype=None, amp=1.0):
     """returns (fails, path, record for conformance, discard); dtype: the signal is handed to the implementation as that dtype
     (integer counts / float32) while the specification is evaluated on the float64 values it denotes"""
     from emd import sift
@@ -95,7 +95,7 @@ def oracle_real(x, imf_opts, envelope_opts, extrema_opts, dtype=None):
                 got = type(e).__name__
                 imf = flag = None
     fails = []
-    scale = max(1.0, float(np.abs(x).max()))
+    scale = amp * max(1.0, float(np.abs(x).max()) / amp)     # amp: the power of ten the order-one family signal was multiplied by
     if kind == 'error':
         if got != 'EMDSiftCovergeError':
             fails.append(('get_next_imf', 'no convergence within max_iters=%s (rule never met at iterates 0..%d) but the call %s instead of '
@@ -165,7 +165,7 @@ def run(ctx):
                 'get_next_imf (envelopes and rules replaced by the script) vs the model: outcome kind, index of the returned iterate, flag, '
                 'iteration count - exact; (2) toy mode: random integer signals (6 families, length 3..40) x 6 toy envelope rules x random '
                 'thresholds/steps/limits, real get_next_imf vs Toys.run_toy_gni bit for bit; (3) sd_stop / rilling_stop on integer vectors vs the '
-                'exact models; (4) real signals (8 families) x {sd,rilling,fixed} x step {1,1/2,1/4} x {splrep,pchip,mono_pchip} x pad 1..4 x '
+                'exact models; (4) real signals (8 families; three in ten of the float64 ones multiplied by 1e-12, 1e-9 or 1e5) x {sd,rilling,fixed} x step {1,1/2,1/4} x {splrep,pchip,mono_pchip} x pad 1..4 x '
                 'limits 1..1000: specification oracle + trace conformance of the model.  non-trivial = at least one sifting iteration was '
                 'completed (envelopes existed at iterate 0)' % (4 if ctx.quick() else 5))
     # the translation tie: the control skeletons of get_next_imf / sift / mask_sift are regenerated from the source and the
@@ -246,7 +246,13 @@ def run(ctx):
     for fam, x in siftcore.real_signals(ctx.seed + 4, nsig):
         imf_opts, envelope_opts, extrema_opts = siftcore.real_opts(ctx.rng)
         dt = ctx.rng.choice(siftcore.DTYPES)
-        fails, path, info, discard = oracle_real(x, imf_opts, envelope_opts, extrema_opts, dtype=dt)
+        amp = 1.0
+        if dt is None and ctx.rng.random() < 0.3:
+            # "all finite signals": the rules are ratios, so the amplitude of the signal must not matter - very small and large ones
+            amp = ctx.rng.choice([1e-12, 1e-9, 1e-9, 1e5])
+            x = x * amp
+            ctx.hist['amplitude-%g' % amp] += 1
+        fails, path, info, discard = oracle_real(x, imf_opts, envelope_opts, extrema_opts, dtype=dt, amp=amp)
         if discard:
             ctx.discarded += 1
             continue
@@ -254,7 +260,7 @@ def run(ctx):
             ctx.hist['dtype-' + dt] += 1
         ctx.count(('real', fam, len(x), repr(imf_opts)), 'noenv@' not in path and not path.endswith('stop@0') or True, 'real-' + path)
         ctx.tol_cmp += 1
-        inp = dict(kind='real', signal=[float(v) for v in x], imf_opts=imf_opts, envelope_opts=envelope_opts, extrema_opts=extrema_opts, dtype=dt)
+        inp = dict(kind='real', signal=[float(v) for v in x], imf_opts=imf_opts, envelope_opts=envelope_opts, extrema_opts=extrema_opts, dtype=dt, amp=amp)
         for site, what in fails[:1]:
             ctx.problem('impl-violation', site, what, input=inp, tags=dict(family=fam))
         if info is not None:
@@ -331,7 +337,7 @@ def explain(inp, got, exp):
 def replay(rec):
     i = rec['input']
     if i.get('kind') == 'real':
-        f, _, _, _ = oracle_real(np.array(i['signal']), i['imf_opts'], i['envelope_opts'], i['extrema_opts'], dtype=i.get('dtype'))
+        f, _, _, _ = oracle_real(np.array(i['signal']), i['imf_opts'], i['envelope_opts'], i['extrema_opts'], dtype=i.get('dtype'), amp=i.get('amp', 1.0))
         for x in f:
             print(x)
         return bool(f)
